@@ -159,7 +159,7 @@ def validate_core_traces(traces, cfg, workdir, label='batch', timeout=1800):
     cf = os.path.join(workdir, label + '.cfg')
     with open(cf, 'w') as f:
         f.write('SPECIFICATION TSpec\nCONSTANTS\n')
-        for ln in core_constants(cfg, special_cids(traces, ('add', 'rem', 'ver')), special_cids(traces, ('boom',)), special_cids(traces, ('vop',)),
+        for ln in core_constants(cfg, special_cids(traces, ('add', 'rem', 'ver', 'sad', 'srm')), special_cids(traces, ('boom',)), special_cids(traces, ('vop',)),
                                  {st['a'][2] for tr in traces for st in tr if st['a'][0] == 'Submit' and str(st['a'][2]).startswith('q')}):
             f.write('  ' + ln + '\n')
         f.write('CHECK_DEADLOCK FALSE\n')
